@@ -57,7 +57,9 @@ def step (line : String) : String :=
         s!"rel={(dominance p q).code} rev={(dominance q p).code}"
       | "sort", m :: n :: nums =>
         let S := chunk m.toNat n.toNat nums
-        let fast := fastSort S
+        -- the model of fastNonDominatedSort is quadratic on lists: beyond 1500 points (one thorough-tier case with
+        -- n > 5000) the line is produced from the divide-and-conquer model (both are proved equal to rankSpec)
+        let fast := if S.length ≤ 1500 then fastSort S else dcSort S
         -- rankSpec is a plain well-founded recursion (exponential without memoisation): run it on small
         -- inputs only; `fastSort_eq_rankSpec` makes the two interchangeable
         let spec := if S.length ≤ 9 then S.map (rankSpec S) else fast
